@@ -88,9 +88,13 @@ SOFTWARE, EVEN IF ADVISED OF THE POSSIBILITY OF SUCH DAMAGE.
 // fail_if_error() is used in parser actions for aborting the parsing if an
 // error has occurred. See fail_with_error for details.
 #define fail_if_error(e) \
-    if (e != ERROR_SUCCESS && e != ERROR_UNKNOWN_ESCAPE_SEQUENCE) \
     { \
-      fail_with_error(e); \
+      int __error = (e); \
+      if (__error != ERROR_SUCCESS && \
+          __error != ERROR_UNKNOWN_ESCAPE_SEQUENCE) \
+      { \
+        fail_with_error(__error); \
+      } \
     }
 
 
@@ -837,6 +841,9 @@ string_modifier
       {
         $$.flags = STRING_FLAGS_BASE64;
         $$.alphabet = ss_new(DEFAULT_BASE64_ALPHABET);
+
+        if ($$.alphabet == NULL)
+          fail_with_error(ERROR_INSUFFICIENT_MEMORY);
       }
     | _BASE64_ '(' _TEXT_STRING_ ')'
       {
@@ -859,6 +866,9 @@ string_modifier
       {
         $$.flags = STRING_FLAGS_BASE64_WIDE;
         $$.alphabet = ss_new(DEFAULT_BASE64_ALPHABET);
+
+        if ($$.alphabet == NULL)
+          fail_with_error(ERROR_INSUFFICIENT_MEMORY);
       }
     | _BASE64_WIDE_ '(' _TEXT_STRING_ ')'
       {
@@ -1172,7 +1182,13 @@ identifier
 
 
 arguments
-    : /* empty */     { $$ = yr_strdup(""); }
+    : /* empty */
+      {
+        $$ = yr_strdup("");
+
+        if ($$ == NULL)
+          fail_with_error(ERROR_INSUFFICIENT_MEMORY);
+      }
     | arguments_list  { $$ = $1; }
 
 
@@ -1759,7 +1775,7 @@ expression
           $$.required_strings.count = 0;
         }
 
-        yr_parser_emit_with_arg(yyscanner, OP_OF, OF_STRING_SET, NULL, NULL);
+        fail_if_error(yr_parser_emit_with_arg(yyscanner, OP_OF, OF_STRING_SET, NULL, NULL));
 
         $$.type = EXPRESSION_TYPE_BOOLEAN;
       }
@@ -1770,7 +1786,7 @@ expression
           yywarning(yyscanner,
             "expression always false - requesting %" PRId64 " of %" PRId64 ".", $1.value.integer, $3);
         }
-        yr_parser_emit_with_arg(yyscanner, OP_OF, OF_RULE_SET, NULL, NULL);
+        fail_if_error(yr_parser_emit_with_arg(yyscanner, OP_OF, OF_RULE_SET, NULL, NULL));
 
         $$.type = EXPRESSION_TYPE_BOOLEAN;
         $$.required_strings.count = 0;
@@ -1801,7 +1817,7 @@ expression
           $$.required_strings.count = 0;
         }
 
-        yr_parser_emit_with_arg(yyscanner, OP_OF_PERCENT, OF_STRING_SET, NULL, NULL);
+        fail_if_error(yr_parser_emit_with_arg(yyscanner, OP_OF_PERCENT, OF_STRING_SET, NULL, NULL));
       }
     | primary_expression '%' _OF_ rule_set
       {
@@ -1820,7 +1836,7 @@ expression
           fail_with_error(ERROR_INVALID_PERCENTAGE);
         }
 
-        yr_parser_emit_with_arg(yyscanner, OP_OF_PERCENT, OF_RULE_SET, NULL, NULL);
+        fail_if_error(yr_parser_emit_with_arg(yyscanner, OP_OF_PERCENT, OF_RULE_SET, NULL, NULL));
       }
     | for_expression _OF_ string_set _IN_ range
       {
@@ -1841,7 +1857,7 @@ expression
           $$.required_strings.count = 0;
         }
 
-        yr_parser_emit(yyscanner, OP_OF_FOUND_IN, NULL);
+        fail_if_error(yr_parser_emit(yyscanner, OP_OF_FOUND_IN, NULL));
 
         $$.type = EXPRESSION_TYPE_BOOLEAN;
       }
@@ -1889,20 +1905,20 @@ expression
           $$.required_strings.count = 0;
         }
 
-        yr_parser_emit(yyscanner, OP_OF_FOUND_AT, NULL);
+        fail_if_error(yr_parser_emit(yyscanner, OP_OF_FOUND_AT, NULL));
 
         $$.type = EXPRESSION_TYPE_BOOLEAN;
       }
     | _NOT_ boolean_expression
       {
-        yr_parser_emit(yyscanner, OP_NOT, NULL);
+        fail_if_error(yr_parser_emit(yyscanner, OP_NOT, NULL));
 
         $$.type = EXPRESSION_TYPE_BOOLEAN;
         $$.required_strings.count = 0;
       }
     | _DEFINED_ boolean_expression
       {
-        yr_parser_emit(yyscanner, OP_DEFINED, NULL);
+        fail_if_error(yr_parser_emit(yyscanner, OP_DEFINED, NULL));
         $$.type = EXPRESSION_TYPE_BOOLEAN;
         $$.required_strings.count = 0;
       }
@@ -2363,7 +2379,7 @@ string_set
     : '('
       {
         // Push end-of-list marker
-        yr_parser_emit_push_const(yyscanner, YR_UNDEFINED);
+        fail_if_error(yr_parser_emit_push_const(yyscanner, YR_UNDEFINED));
       }
       string_enumeration ')'
       {
@@ -2416,7 +2432,7 @@ rule_set
     : '('
       {
         // Push end-of-list marker
-        yr_parser_emit_push_const(yyscanner, YR_UNDEFINED);
+        fail_if_error(yr_parser_emit_push_const(yyscanner, YR_UNDEFINED));
       }
       rule_enumeration ')'
       {
@@ -2473,13 +2489,15 @@ rule_enumeration_item
             YR_NAMESPACES_TABLE,
             compiler->current_namespace_idx * sizeof(struct YR_NAMESPACE));
 
-        yr_hash_table_add_uint32(
+        int result = yr_hash_table_add_uint32(
             compiler->wildcard_identifiers_table,
             $1,
             ns->name,
             1);
 
-        int result = yr_parser_emit_pushes_for_rules(yyscanner, $1, &count);
+        if (result == ERROR_SUCCESS)
+          result = yr_parser_emit_pushes_for_rules(yyscanner, $1, &count);
+
         yr_free($1);
 
         fail_if_error(result);
@@ -2555,19 +2573,19 @@ for_expression
 for_quantifier
     : _ALL_
       {
-        yr_parser_emit_push_const(yyscanner, YR_UNDEFINED);
+        fail_if_error(yr_parser_emit_push_const(yyscanner, YR_UNDEFINED));
         $$.type = EXPRESSION_TYPE_QUANTIFIER;
         $$.value.integer = FOR_EXPRESSION_ALL;
      }
     | _ANY_
       {
-        yr_parser_emit_push_const(yyscanner, 1);
+        fail_if_error(yr_parser_emit_push_const(yyscanner, 1));
         $$.type = EXPRESSION_TYPE_QUANTIFIER;
         $$.value.integer = FOR_EXPRESSION_ANY;
       }
     | _NONE_
       {
-        yr_parser_emit_push_const(yyscanner, 0);
+        fail_if_error(yr_parser_emit_push_const(yyscanner, 0));
         $$.type = EXPRESSION_TYPE_QUANTIFIER;
         $$.value.integer = FOR_EXPRESSION_NONE;
       }
